@@ -734,7 +734,7 @@ Lemma connection_unfold w c st ps apps fs :
     /\ ((w <> WGthread /\ st0 = st /\ connection w c st ps apps fs = finish x st1 fs1 evs)
         \/ (w = WGthread /\ st0 = bump_conns st 1 /\
             ((x = None \/ exists e, x = Some e /\ is_exception (x_cls e) = true) /\
-               connection w c st ps apps fs = finish x (bump_conns st1 (-1)) fs1 evs
+               connection w c st ps apps fs = finish None (bump_conns st1 (-1)) fs1 evs
              \/ (exists e, x = Some e /\ is_exception (x_cls e) = false) /\
                connection w c st ps apps fs = {| o_trace := evs; o_escaped := x; o_st := st1 |}))).
 Proof.
@@ -769,9 +769,9 @@ Proof.
   cbn zeta. destruct (connection_unfold w c st ps apps fs) as (w' & st0 & ps1 & x & st1 & fs1 & evs & E & -> & _ & HC).
   destruct (conn_loop_post _ _ _ _ _ _ _ _ _ _ E) as (_ & D & R).
   pose proof (conn_loop_errs _ _ _ _ _ _ _ _ _ _ E) as W.
-  assert (F : forall st', let o := finish x st' fs1 evs in
+  assert (F : forall x st', let o := finish x st' fs1 evs in
               disp_ok DIdle (o_trace o) = true /\ err_ok false (o_trace o) = true /\ Forall err_wf (o_trace o)).
-  { intros st'. unfold finish, final_close. cbn [o_trace]. destruct (pop fs1) as [f t].
+  { intros x' st'. unfold finish, final_close. cbn [o_trace]. destruct (pop fs1) as [f t].
     split; [apply disp_close; exact D|]. split; [apply err_ok_close; exact R|]. apply Forall_app. split; [exact W|repeat constructor]. }
   destruct HC as [(_ & _ & ->)|(_ & _ & [[_ ->]|[_ ->]])]; try apply F.
   cbn [o_trace]. repeat split; assumption.
@@ -783,8 +783,8 @@ Theorem connection_closed w c st ps apps fs :
   exists pre f, o_trace o = pre ++ [EvClose f].
 Proof.
   cbn zeta. destruct (connection_unfold w c st ps apps fs) as (w' & st0 & ps1 & x & st1 & fs1 & evs & E & -> & _ & HC).
-  assert (F : forall st', exists pre f, o_trace (finish x st' fs1 evs) = pre ++ [EvClose f]).
-  { intros st'. unfold finish, final_close. cbn [o_trace]. destruct (pop fs1) as [f t]. exists evs, f. reflexivity. }
+  assert (F : forall x st', exists pre f, o_trace (finish x st' fs1 evs) = pre ++ [EvClose f]).
+  { intros x' st'. unfold finish, final_close. cbn [o_trace]. destruct (pop fs1) as [f t]. exists evs, f. reflexivity. }
   destruct HC as [(_ & _ & ->)|(_ & _ & [[_ ->]|[(e & -> & Hx) ->]])]; intros H; try apply F.
   cbn [o_escaped] in H. destruct H as [H|(e' & H & H')]; [discriminate|]. injection H as <-. congruence.
 Qed.
@@ -811,8 +811,8 @@ Proof.
   destruct (connection_unfold w c st ps apps fs) as (w' & st0 & ps1 & x & st1 & fs1 & evs & E & -> & Hps & HC).
   assert (Hp1 : Forall nonssl (pouts_exns ps1)) by (destruct Hps as [->| ->]; [exact Hp|apply first1_exns; exact Hp]).
   destruct (conn_loop_clean _ _ _ _ _ _ _ _ _ _ false Hp1 Ha E) as [C R].
-  assert (F : forall st', let o := finish x st' fs1 evs in clean_ok false (o_trace o) = true /\ racc_ok None (o_trace o) = true).
-  { intros st'. unfold finish, final_close. cbn [o_trace]. destruct (pop fs1) as [f t].
+  assert (F : forall x st', let o := finish x st' fs1 evs in clean_ok false (o_trace o) = true /\ racc_ok None (o_trace o) = true).
+  { intros x' st'. unfold finish, final_close. cbn [o_trace]. destruct (pop fs1) as [f t].
     split; [apply clean_close; exact C|apply racc_close; exact R]. }
   destruct HC as [(_ & _ & ->)|(_ & _ & [[_ ->]|[_ ->]])]; try apply F. cbn [o_trace]. split; assumption.
 Qed.
@@ -833,8 +833,8 @@ Theorem connection_state w c st ps apps fs :
 Proof.
   cbn zeta. destruct (connection_unfold w c st ps apps fs) as (w' & st0 & ps1 & x & st1 & fs1 & evs & E & -> & _ & HC).
   pose proof (conn_loop_state _ _ _ _ _ _ _ _ _ _ E) as S.
-  assert (Fn : forall st', napps (o_trace (finish x st' fs1 evs)) = napps evs).
-  { intros st'. unfold finish, final_close. cbn [o_trace]. destruct (pop fs1). apply napps_close. }
+  assert (Fn : forall x st', napps (o_trace (finish x st' fs1 evs)) = napps evs).
+  { intros x' st'. unfold finish, final_close. cbn [o_trace]. destruct (pop fs1). apply napps_close. }
   destruct HC as [(_ & -> & ->)|(_ & -> & [[_ ->]|[(e & -> & Hx) ->]])]; intros H.
   - rewrite Fn. exact S.
   - rewrite Fn. unfold finish. cbn [o_st]. rewrite S, bump_after, bump_cancel. reflexivity.
